@@ -88,6 +88,10 @@ let run_pppoe (rt : bool) (rep : vr) (flav : string) (toks : string list) : stri
             | None -> ()
             | Some m -> mons.(i) <- mon_run (nat_of_int i) [(e, outs)] m;
               if mons.(i) = None && !mon = "ok" then mon := "VIOLATION@" ^ string_of_int i) mons;
+          (* retained state: a session that is in the indexes but not in Network/Open (its link is unauthenticated)
+             must not hold a pool lease — the lease and the dataplane session belong to an authenticated link *)
+          List.iteri (fun i (s : sess) ->
+            if s.live && not (in_net s.ph) && s.alloc_pool && !mon = "ok" then mon := "VIOLATION@" ^ string_of_int i) st'.sl;
           outs) el in
         let os = List.filter_map (fun (i, o) -> match show_out o with
           | None -> None
@@ -249,7 +253,7 @@ let () =
     | "pppoe" :: rest ->
       let flav = flavour_of il in
       if flav <> "cur" && flav <> "rfc" then print_endline ("badflavour:" ^ flav) else
-      print_endline (try run_pppoe rep { vrep = rep; vrfc = (flav = "rfc") } flav rest with e -> "modelerr:" ^ Printexc.to_string e)
+      print_endline (try run_pppoe rep { vrep = true; vrfc = (flav = "rfc"); vtd = rep } flav rest with e -> "modelerr:" ^ Printexc.to_string e)
     | ["radius"; fb; srv; at] ->
       let fb = (fb = "1") in
       let srv = (match srv with "accept" -> SrvAccept | "reject" -> SrvReject | "other" -> SrvOtherCode | _ -> SrvNoAnswer) in
